@@ -193,11 +193,41 @@ func runC02(c *eng.Ctx) {
 			return fa != nil && m == "Load" && strings.HasSuffix(eng.FieldKeyOfAddr(fa), ".ref")
 		}) {
 			z := facts.Find(facts.At(del.Instr), "eq", func(_ string, v ssa.Value) bool { return v == s.Instr.(ssa.Value) }, eng.DescIs("0"))
+			at := s.Instr
+			if len(z) == 0 && s.Instr.Parent() != f {
+				// the test sits in a small predicate helper (isUnreferenced(v) = v.NumOfRef() == 0): the helper returns exactly
+				// "count == 0" and the delete is guarded by the helper answering true
+				h := s.Instr.Parent()
+				exact := true
+				for _, hb := range h.Blocks {
+					for _, hin := range hb.Instrs {
+						r, isR := hin.(*ssa.Return)
+						if !isR {
+							continue
+						}
+						bo, isB := eng.Unwrap(r.Results[0]).(*ssa.BinOp)
+						if len(r.Results) != 1 || !isB || bo.Op != token.EQL {
+							exact = false
+							continue
+						}
+						k, isC := eng.ConstInt(bo.Y)
+						if !isC || k != 0 || eng.Unwrap(bo.X) != s.Instr.(ssa.Value) {
+							exact = false
+						}
+					}
+				}
+				if top := eng.TopOf(f, s); exact && top != nil {
+					if tv, isV := top.(ssa.Value); isV {
+						z = facts.Find(facts.At(del.Instr), "true", func(_ string, v ssa.Value) bool { return v == tv }, nil)
+						at = top
+					}
+				}
+			}
 			if len(z) == 0 {
 				why = "the count read at " + p.InstrPos(s.Instr) + " does not guard the delete"
 				continue
 			}
-			if ok, w := ls.SameHold(s.Instr, del.Instr, fvMu, true); !ok {
+			if ok, w := ls.SameHold(at, del.Instr, fvMu, true); !ok {
 				why = "the count is read outside the hold that deletes: " + w
 				continue
 			}
